@@ -88,6 +88,11 @@ fn main() {
     }
     sut::install_panic_hook();
 
+    if what == "debug-carry" {
+        let t: [u8; 52] = [14, 7, 24, 9, 28, 6, 24, 196, 4, 31, 202, 111, 6, 11, 3, 22, 10, 9, 15, 14, 11, 21, 11, 26, 18, 7, 0, 13, 3, 4, 11, 6, 15, 26, 144, 25, 6, 9, 14, 6, 2, 9, 28, 23, 31, 18, 26, 30, 11, 27, 29, 254];
+        mon::c04::debug_trace(&t);
+        return;
+    }
     if what == "debug-floor" {
         let mut rng = util::Rng::new(seed);
         for slot in [31u32, 41, 47] {
